@@ -38,6 +38,17 @@ def run(ctx: Ctx) -> None:
         "emptied by initialize() on every path on which it is a list, the "
         "two collections are appended to in the same block, and initialize() "
         "unconditionally returns to real-system mode; "
+        "D11.7 evaluate() simulates every training case with the "
+        "instance's training starts, the current equations, the instance's "
+        "controller, control dimension, steps and time, for the vector "
+        "being evaluated (call binding through the constructor's field "
+        "provenance), scores it with len(training[0]), the instance's "
+        "state_dims_in_j and gamma, stops with 1e200 exactly on a case "
+        "outside [0, 1e100] (polarity on the CFG), records every case that "
+        "continues when collecting, and returns sum_up_results(results) = "
+        "mean / exp(mean(log(J+1)))-1; D11.8 get_differentials returns the "
+        "two concatenations in (state+control, differential) order and "
+        "replaces each collection by exactly its own concatenation; "
         "D11.5 in SurrogateOptimizer.solve the disabling of initialize() "
         "and the model mode are each closed again on every normal path "
         "before the loop repeats and before process.evaluate runs. Not "
@@ -59,6 +70,12 @@ def run(ctx: Ctx) -> None:
     _returns(ctx, fom)
     _surrogate(ctx)
     _reset(ctx, fom, le)
+    ctx.rule("D11.7", "evaluate() computes the documented value from the "
+             "documented inputs")
+    _assembly(ctx, fom, le)
+    ctx.rule("D11.8", "get_differentials neither loses nor duplicates "
+             "samples")
+    _compaction(ctx, fom)
     ctx.assumptions += [
         "controllers and system equations do not mutate their inputs "
         "(C16 D16.6)",
@@ -513,7 +530,46 @@ def _reset(ctx: Ctx, fom: ClassInfo, le: ClassInfo) -> None:
                         f = None          # a numeric accumulator
                 if f is not None:
                     grown.setdefault(f, []).append((m, n))
-    ctx.floor("growing_fields", len(grown), 2)
+    ctx.count("growing_fields", len(grown))
+    # the collector stores the pair (state+control, differential) of
+    # diff_from_ode in (sc, df) order
+    ap = fom.methods.get(mangle(fom.name, "__append")) or fom.methods.get(
+        "__append")
+    pair_ok = False
+    if ap is not None and len(ap.params) == 2:
+        dn = ap.params[1]
+        got = {}
+        for n in ast.walk(ap.node):
+            if isinstance(n, ast.Call) and isinstance(
+                    n.func, ast.Attribute) and n.func.attr == "append" and \
+                    len(n.args) == 1 and isinstance(
+                    n.args[0], ast.Subscript) and ast.unparse(
+                    n.args[0].value) == dn:
+                got[_self_attr(n.func.value)] = ctx.repo.const(
+                    ap.module, n.args[0].slice)
+        pair_ok = got == {"__collection_sc": 0, "__collection_df": 1}
+    ctx.ob("D11.6", ap or ini, (ap or ini).node, pair_ok,
+           "the collector appends data[0] (state+control rows) to the sc "
+           "list and data[1] (differentials) to the df list" if pair_ok else
+           "the collector does not store (state+control, differential) in "
+           "the (sc, df) collections", construct="collector stores the pair")
+    # both collections exist exactly when model mode is supported
+    sup_ok = True
+    for n in ast.walk(init.node):
+        if isinstance(n, (ast.Assign, ast.AnnAssign)) and n.value is not None:
+            f = _self_attr(n.targets[0] if isinstance(n, ast.Assign)
+                           else n.target)
+            if f in ("__collection_sc", "__collection_df"):
+                v = n.value
+                sup_ok = sup_ok and isinstance(v, ast.IfExp) and isinstance(
+                    v.body, ast.List) and not v.body.elts and isinstance(
+                    v.orelse, ast.Constant) and v.orelse.value is None and \
+                    isinstance(v.test, ast.Name) and v.test.id in init.params
+    ctx.ob("D11.6", init, init.node, sup_ok,
+           "both collections are empty lists iff model mode is supported, "
+           "else None" if sup_ok else
+           "the collections are not `[] if supports_model_mode else None`",
+           construct="collections exist iff supported")
     # ---- what initialize() empties, and under which guard
     cleared: dict[str, str | None] = {}
 
@@ -593,3 +649,344 @@ def _reset(ctx: Ctx, fom: ClassInfo, le: ClassInfo) -> None:
            "initialize() unconditionally switches to the real system "
            "(set_raw)" if top else "initialize() does not return to the "
            "real-system mode", construct="initialize calls set_raw")
+
+
+# ------------------------------------------------------------------ D11.7
+def _assembly(ctx: Ctx, fom: ClassInfo, le: ClassInfo) -> None:
+    """evaluate() computes the documented value from the documented inputs."""
+    repo = ctx.repo
+    ev = fom.methods["evaluate"]
+    init = fom.methods["__init__"]
+    body = func_body(ev)
+    xparam = ev.params[1]
+    # ---- field provenance: self.__f = instance.<path>
+    src_of: dict[str, str] = {}
+    for n in ast.walk(init.node):
+        if isinstance(n, (ast.Assign, ast.AnnAssign)) and n.value is not None:
+            f = _self_attr(n.targets[0] if isinstance(n, ast.Assign)
+                           else n.target)
+            if f is not None:
+                src_of[f] = ast.unparse(n.value).replace(" ", "")
+    # ---- locals of evaluate: name -> self field
+    local: dict[str, str] = {}
+    for s in body:
+        if isinstance(s, (ast.Assign, ast.AnnAssign)) and s.value is not None:
+            tg = s.targets[0] if isinstance(s, ast.Assign) else s.target
+            f = _self_attr(s.value)
+            if isinstance(tg, ast.Name) and f is not None:
+                local[tg.id] = f
+    loop = next((s for s in body if isinstance(s, ast.For)), None)
+    ctx.need(loop is not None, "evaluate: loop over the training cases")
+    it = loop.iter
+    src_it = it.args[0] if isinstance(it, ast.Call) and ast.unparse(
+        it.func) == "enumerate" and it.args else it
+    tr_field = local.get(src_it.id) if isinstance(src_it, ast.Name) else None
+    elts = [t.id for t in ast.walk(loop.target) if isinstance(t, ast.Name)]
+    start_n = elts[-1] if elts else None
+    problems: list[str] = []
+    if tr_field is None or "training_starting_states" not in src_of.get(
+            tr_field, ""):
+        problems.append("the loop does not run over the system's training "
+                        "starting states")
+
+    def want_field(arg: ast.expr, suffix: str, what: str) -> None:
+        nm = arg.id if isinstance(arg, ast.Name) else None
+        f = local.get(nm) if nm else _self_attr(arg)
+        if f is None or not src_of.get(f, "").endswith(suffix):
+            problems.append(f"{what} receives `{ast.unparse(arg)}`"
+                            + (f" (= self.{f} = {src_of.get(f)})" if f else "")
+                            + f", expected the instance's {suffix}")
+    ode_mod = repo.module("moptipyapps.dynamic_control.ode")
+    def calls_of(name: str) -> list[ast.Call]:
+        tgt = ode_mod.funcs.get(name)
+        return [n for n in ast.walk(loop) if isinstance(n, ast.Call)
+                and isinstance(n.func, ast.Name) and repo.resolve(
+                    ev.module, n.func.id) is tgt]
+    ro = calls_of("run_ode")
+    jf = calls_of("j_from_ode")
+    ode_var = None
+    if len(ro) != 1 or ro[0].keywords or len(ro[0].args) != 7:
+        problems.append("run_ode is not called once with 7 positional "
+                        "arguments")
+    else:
+        a = ro[0].args
+        if not (isinstance(a[0], ast.Name) and a[0].id == start_n):
+            problems.append(f"run_ode starts from `{ast.unparse(a[0])}`, "
+                            "not from the training case of this round")
+        eqf = local.get(a[1].id) if isinstance(a[1], ast.Name) else None
+        if eqf != "__equations":
+            problems.append("run_ode does not receive the current "
+                            "equations (self.__equations)")
+        want_field(a[2], "controller.controller", "run_ode's controller")
+        if not (isinstance(a[3], ast.Name) and a[3].id == xparam):
+            problems.append(f"run_ode's parameters are `{ast.unparse(a[3])}`"
+                            f", not the vector `{xparam}` being evaluated")
+        want_field(a[4], "controller.control_dims", "run_ode's "
+                   "controller_dim")
+        want_field(a[5], "system.training_steps", "run_ode's steps")
+        want_field(a[6], "system.training_time", "run_ode's max_time")
+        for s in ast.walk(loop):
+            if isinstance(s, ast.Assign) and s.value is ro[0] and isinstance(
+                    s.targets[0], ast.Name):
+                ode_var = s.targets[0].id
+    sd_var = None
+    for s in body:
+        if isinstance(s, (ast.Assign, ast.AnnAssign)) and s.value is not None:
+            tg = s.targets[0] if isinstance(s, ast.Assign) else s.target
+            srcv = ast.unparse(s.value).replace(" ", "")
+            if isinstance(tg, ast.Name) and isinstance(
+                    src_it, ast.Name) and srcv in (
+                    f"len({src_it.id}[0])", f"{src_it.id}.shape[1]"):
+                sd_var = tg.id
+    if len(jf) != 1 or jf[0].keywords or len(jf[0].args) != 4:
+        problems.append("j_from_ode is not called once with 4 positional "
+                        "arguments")
+    else:
+        a = jf[0].args
+        if not (isinstance(a[0], ast.Name) and a[0].id == ode_var):
+            problems.append("j_from_ode does not receive the simulation "
+                            "of this round")
+        if not (isinstance(a[1], ast.Name) and a[1].id == sd_var):
+            problems.append("j_from_ode's state dimension is not "
+                            "len(training[0])")
+        want_field(a[2], "system.state_dims_in_j", "j_from_ode's "
+                   "use_state_dims")
+        want_field(a[3], "system.gamma", "j_from_ode's gamma")
+    ctx.ob("D11.7", ev, loop, not problems,
+           "each training case is simulated with the instance's equations "
+           "(or the current model), controller, steps and time for the "
+           "vector being evaluated, and scored with the instance's state "
+           "dimensions and gamma" if not problems else "; ".join(problems),
+           construct="arguments of the simulation")
+    # ---- per-case guard polarity
+    cfg = CFG(ev.node)
+    head = next(n for n in cfg.nodes if n.ast is loop and n.kind == "for")
+    fails = [n for n in cfg.nodes if n.kind == "stmt" and isinstance(
+        n.ast, ast.Return) and repo.const(ev.module, n.ast.value) == 1e200
+        and any(n.ast is x for x in ast.walk(loop))]
+    chains = [n for n in cfg.nodes if n.kind == "test" and isinstance(
+        n.ast, ast.Compare) and len(n.ast.ops) == 2 and any(
+        n.ast is x for x in ast.walk(loop))]
+    g_problems: list[str] = []
+    good = [c for c in chains if repo.const(ev.module, c.ast.left) == 0.0
+            and repo.const(ev.module, c.ast.comparators[1]) == 1e100
+            and all(isinstance(o, ast.LtE) for o in c.ast.ops)]
+    if len(good) != 1 or len(fails) != 1:
+        g_problems.append("no single per-case test 0.0 <= J <= 1e100 with "
+                          "a `return 1e200`")
+    else:
+        c = good[0]
+        zname = ast.unparse(c.ast.comparators[0])
+        # z is the value stored for this case and returned by j_from_ode
+        zdef = [s for s in ast.walk(loop) if isinstance(s, ast.Assign)
+                and jf and s.value is jf[0]]
+        if not zdef or zname not in [ast.unparse(t) for t in
+                                     zdef[0].targets]:
+            g_problems.append(f"the tested value `{zname}` is not the "
+                              "figure of merit of this case")
+        for m, lb in c.succ:
+            if lb is True and (m is fails[0] or cfg.can_reach_avoiding(
+                    m, fails[0], lambda n: n is head)):
+                g_problems.append("a case with 0 <= J <= 1e100 leads to "
+                                  "the failure value")
+            if lb is False and (m is head or cfg.can_reach_avoiding(
+                    m, head, lambda n: False)):
+                g_problems.append("a case outside [0, 1e100] does not stop "
+                                  "the evaluation")
+    ctx.ob("D11.7", ev, loop, not g_problems,
+           "a training case outside [0, 1e100] (or NaN) ends the evaluation "
+           "with 1e200; all others continue" if not g_problems else
+           "; ".join(g_problems), construct="per-case range test")
+    # ---- every case that continues is recorded when collecting
+    colls = [n for n in cfg.nodes if n.kind == "stmt" and any(
+        isinstance(c.func, ast.Name) and c.func.id == "collector"
+        for c in calls_in(n.ast))]
+    ctests = [n for n in cfg.nodes if n.kind == "test" and
+              "collector" in ast.unparse(n.ast)]
+    rec_ok = False
+    if len(colls) == 1 and ctests:
+        call = next(c for c in calls_in(colls[0].ast)
+                    if isinstance(c.func, ast.Name)
+                    and c.func.id == "collector")
+        inner = call.args[0] if call.args else None
+        df = ode_mod.funcs.get("diff_from_ode")
+        arg_ok = isinstance(inner, ast.Call) and isinstance(
+            inner.func, ast.Name) and repo.resolve(
+            ev.module, inner.func.id) is df and [
+            ast.unparse(x) for x in inner.args] == [ode_var, sd_var]
+        # from the "collector is not None" outcome the next round is only
+        # reached through the call
+        t = ctests[0]
+        is_not = isinstance(t.ast, ast.Compare) and isinstance(
+            t.ast.ops[0], ast.IsNot)
+        lab = True if is_not else False
+        thru = all(m is colls[0] or not (
+            m is head or cfg.can_reach_avoiding(
+                m, head, lambda n: n is colls[0]))
+            for m, lb in t.succ if lb is lab)
+        rec_ok = arg_ok and thru
+    ctx.ob("D11.7", ev, colls[0].ast if colls else loop, rec_ok,
+           "while collecting, every training case that passes its range "
+           "test hands diff_from_ode(simulation, state_dim) to the collector "
+           "before the next case" if rec_ok else
+           "a successfully simulated training case is not recorded (or "
+           "not as diff_from_ode(the_ode, state_dim))",
+           construct="cases recorded")
+    # ---- the aggregate
+    problems = []
+    for cls, want in ((fom, "mean"), (le, "logexp")):
+        m = cls.methods.get("sum_up_results")
+        if m is None:
+            problems.append(f"{cls.name}.sum_up_results missing")
+            continue
+        rets = [r for r in ast.walk(m.node) if isinstance(r, ast.Return)]
+        src = ast.unparse(rets[0].value).replace(" ", "") if len(
+            rets) == 1 else ""
+        p = m.params[1]
+        if want == "mean":
+            ok = src in (f"float({p}.mean())", f"{p}.mean()",
+                         f"float(np.mean({p}))")
+        else:
+            ok = src in (f"float(expm1(np.log1p({p},{p}).mean()))",
+                         f"float(expm1(np.log1p({p}).mean()))",
+                         f"float(np.expm1(np.log1p({p}).mean()))",
+                         f"float(np.expm1(np.log1p({p},{p}).mean()))")
+        if not ok:
+            problems.append(
+                f"{cls.name}.sum_up_results returns `{src}`, expected "
+                + ("the mean of the J values" if want == "mean" else
+                   "exp(mean(log(J + 1))) - 1"))
+    tail = body[body.index(loop) + 1:]
+    agg = [s for s in tail if isinstance(s, ast.Assign) and isinstance(
+        s.value, ast.Call) and ast.unparse(s.value.func) ==
+        "self.sum_up_results"]
+    res_field = None
+    if len(agg) == 1 and len(agg[0].value.args) == 1 and isinstance(
+            agg[0].value.args[0], ast.Name):
+        res_field = local.get(agg[0].value.args[0].id)
+    if res_field != "__results":
+        problems.append("the aggregate is not computed from the per-case "
+                        "results buffer")
+    ctx.ob("D11.7", ev, agg[0] if agg else ev.node, not problems,
+           "the value is sum_up_results(results): the mean (FigureOfMerit) "
+           "or exp(mean(log(J+1)))-1 (FigureOfMeritLE) of the per-case "
+           "figures" if not problems else "; ".join(problems),
+           construct="aggregate of the cases")
+
+
+# ------------------------------------------------------------------ D11.8
+def _compaction(ctx: Ctx, fom: ClassInfo) -> None:
+    """get_differentials neither loses nor duplicates recorded samples."""
+    gd = fom.methods.get("get_differentials")
+    ctx.need(gd is not None, "FigureOfMerit.get_differentials")
+    body = func_body(gd)
+    alias: dict[str, str] = {}
+    for s in body:
+        if isinstance(s, (ast.Assign, ast.AnnAssign)) and s.value is not None:
+            tg = s.targets[0] if isinstance(s, ast.Assign) else s.target
+            f = _self_attr(s.value)
+            if isinstance(tg, ast.Name) and f in ("__collection_sc",
+                                                   "__collection_df"):
+                alias[tg.id] = f
+    inv = {v: k for k, v in alias.items()}
+    problems: list[str] = []
+    if set(alias.values()) != {"__collection_sc", "__collection_df"}:
+        problems.append("the two collections are not both consulted")
+    else:
+        sc_l, df_l = inv["__collection_sc"], inv["__collection_df"]
+        cat: dict[str, str] = {}
+        for s in body:
+            if isinstance(s, (ast.Assign, ast.AnnAssign)) and isinstance(
+                    s.value, ast.Call) and ast.unparse(
+                    s.value.func) in ("np.concatenate", "np.vstack") and \
+                    len(s.value.args) == 1 and isinstance(
+                    s.value.args[0], ast.Name):
+                tg = s.targets[0] if isinstance(s, ast.Assign) else s.target
+                if isinstance(tg, ast.Name):
+                    cat[s.value.args[0].id] = tg.id
+        if set(cat) != {sc_l, df_l}:
+            problems.append("not both collections are concatenated")
+        else:
+            cfg = CFG(gd.node)
+            final = [n for n in cfg.nodes if n.kind == "stmt" and isinstance(
+                n.ast, ast.Return) and isinstance(n.ast.value, ast.Tuple)
+                and [ast.unparse(e) for e in n.ast.value.elts] == [
+                    cat[sc_l], cat[df_l]]]
+            if len(final) != 1:
+                problems.append("the concatenated (state+control, "
+                                "differential) pair is not returned in this "
+                                "order")
+            else:
+                for lst in (sc_l, df_l):
+                    def is_m(n: Any, meth: str, lst: str = lst) -> bool:
+                        a = n.ast
+                        return n.kind == "stmt" and isinstance(
+                            a, ast.Expr) and isinstance(
+                            a.value, ast.Call) and ast.unparse(
+                            a.value.func) == f"{lst}.{meth}"
+                    clr = [n for n in cfg.nodes if is_m(n, "clear")]
+                    app = [n for n in cfg.nodes if is_m(n, "append")
+                           and [ast.unparse(x) for x in n.ast.value.args]
+                           == [cat[lst]]]
+                    other = [n for n in cfg.nodes if n.kind == "stmt" and
+                             isinstance(n.ast, ast.Expr) and isinstance(
+                                 n.ast.value, ast.Call) and ast.unparse(
+                                 n.ast.value.func).startswith(lst + ".")
+                             and n not in clr and n not in app]
+                    if len(clr) != 1 or len(app) != 1 or other:
+                        problems.append(
+                            f"`{lst}` is not replaced by exactly its own "
+                            "concatenation (clear, then append)")
+                        continue
+                    catn = next(n for n in cfg.nodes if n.kind == "stmt"
+                                and isinstance(n.ast, (ast.Assign,
+                                                       ast.AnnAssign))
+                                and isinstance(n.ast.value, ast.Call)
+                                and n.ast.value.args and ast.unparse(
+                                    n.ast.value.args[0]) == lst
+                                and "concatenate" in ast.unparse(
+                                    n.ast.value.func))
+                    order = cfg.dominated_by(clr[0], lambda n: n is catn) \
+                        and cfg.dominated_by(app[0], lambda n: n is clr[0]) \
+                        and cfg.dominated_by(final[0],
+                                             lambda n: n is app[0])
+                    if not order:
+                        problems.append(
+                            f"`{lst}`: concatenate -> clear -> append -> "
+                            "return does not hold on every path")
+        # unsupported -> raise, exactly when the list is None
+        guards = [s for s in body if isinstance(s, ast.If) and s.body
+                  and isinstance(s.body[-1], ast.Raise)]
+        okg = False
+        for g in guards:
+            t = g.test
+            if isinstance(t, ast.Compare) and len(t.ops) == 1 and isinstance(
+                    t.ops[0], ast.Is) and isinstance(
+                    t.comparators[0], ast.Constant) and \
+                    t.comparators[0].value is None and ast.unparse(
+                    t.left) in (sc_l, df_l):
+                okg = True
+        if not okg:
+            problems.append("`Differential collection not supported` is not "
+                            "raised exactly when the collection is None")
+        # the shortcut for a single chunk
+        shorts = [r for r in ast.walk(gd.node) if isinstance(r, ast.Return)
+                  and isinstance(r.value, ast.Tuple) and all(
+                      isinstance(e, ast.Subscript) for e in r.value.elts)]
+        for r in shorts:
+            got = [ast.unparse(e).replace(" ", "") for e in r.value.elts]
+            if got != [f"{sc_l}[0]", f"{df_l}[0]"]:
+                problems.append(f"the single-chunk shortcut returns {got}")
+            par = next((s for s in body if isinstance(s, ast.If)
+                        and r in s.body), None)
+            tsrc = ast.unparse(par.test).replace(" ", "") if par else ""
+            if tsrc not in (f"len({sc_l})==1", f"len({df_l})==1",
+                            f"1==len({sc_l})"):
+                problems.append("the single-chunk shortcut is not taken "
+                                "exactly when one chunk is stored")
+    ctx.ob("D11.8", gd, gd.node, not problems,
+           "get_differentials returns (all state+control rows, all "
+           "differential rows) and replaces each collection by exactly its "
+           "own concatenation: nothing is lost or duplicated between "
+           "evaluations" if not problems else "; ".join(problems),
+           construct="compaction of the collections")
